@@ -340,6 +340,16 @@ def _progress(ctx: Ctx, c: Collector) -> None:
             src = T.strip(chk.iters[0][2])
             tgt = chk.iters[0][1]
             form = _whole_list_iteration(src, futs)
+            if form is None and tgt == ("while",) and src[0] == "cmp" and src[1] == "<" and src[2] == T.const(0) and src[3][0] == "var":
+                # `i = len(xs); while i > 0: i -= 1; ... xs[i]`: the indices from the last one down to 0
+                iv_ = src[3]
+                ln_ = call(T.glob("len"), futs)
+                inits = [b for b in s.of_kind("bind") if b.term[1] == iv_ and not b.iters]
+                steps = [b for b in s.of_kind("bind") if b.term[1] == iv_ and b.iters == chk.iters]
+                first_in_loop = min((e2.idx for e2 in s.events if e2.iters == chk.iters and e2.kind != "test"), default=None)
+                if len(inits) == 1 and T.strip(inits[0].term[2]) == ln_ and len(steps) == 1 and T.strip(steps[0].term[2]) == ("op", "-", iv_, T.const(1)) \
+                        and steps[0].idx == first_in_loop and not [g for g in steps[0].guards if g not in chk.guards[:len(steps[0].guards)] and T.guard_term(g) != src]:
+                    form = "index-reverse"
             if form == "partial":
                 problems.append(f"the loop {T.show(src)} does not cover all registered triggers")
                 form = "index-reverse"
